@@ -160,7 +160,17 @@ func (n *fakeNode) Unlock() {
 	} else {
 		n.w.emit(fmt.Sprintf("UBAD.%x", t))
 	}
+	pause := false
+	if m := n.w.msgs[t]; m != nil && m.lastFlag {
+		pause = true
+	}
 	n.w.stepDone()
+	if pause {
+		// scheduling point between the Unlock that ends the flag read (S3) and what the loop does next
+		// (apply, back to select): other threads may run here; no event of its own
+		n.w.point("P")
+		n.w.stepDone()
+	}
 }
 
 func (n *fakeNode) Connect() (net.Conn, error) { return nil, errors.New("not used") }
@@ -375,9 +385,9 @@ type fakeTxMsg struct {
 	tid      int
 	desc     *descriptor.Message
 	flag     bool
-	token    bool // harness-side buffer of the wake-up channel (capacity one)
+	token    bool // the harness believes a token is in the wake-up channel
 	content  int
-	wakeOut  chan struct{}
+	wakeCh   chan struct{} // the real thing: capacity one, filled by a non-blocking send
 	evOut    chan struct{}
 	gotWake  bool
 	lastFlag bool // the previous access was the flag read (=> the next Unlock parks the loop)
@@ -412,7 +422,7 @@ func (m *fakeTxMsg) WakeUpChan() <-chan struct{} {
 	m.w.emit(fmt.Sprintf("GW.%x", t))
 	m.gotWake = true
 	m.w.stepDone()
-	return m.wakeOut
+	return m.wakeCh
 }
 func (m *fakeTxMsg) IsCyclicTransmissionEnabled() bool {
 	var b bool
